@@ -169,14 +169,14 @@ type scriptT struct {
 	name      string
 	responses []*gpb.SubscribeResponse
 	mdl       *tmodel
-	mdlAlt    *tmodel // pathorigin mode: the state if path-level origins were ignored (known finding D19)
+	mdlAlt    *tmodel                    // pathorigin mode: the state if path-level origins were ignored (known finding D19)
 	pre       [][]*gpb.SubscribeResponse // earlier sessions: streamed, then the stream fails (reconnect mode)
 	structOf  map[string]storedLeaf      // index key -> origin and structured elements of the leaf (for keyed CLI queries)
 	nonce     string
 	nonceKey  []string
 	sawReq    *gpb.SubscribeRequest
 	sessions  int
-	rewrites  int // same-timestamp rewrites of an existing leaf in the stream
+	rewrites  int  // same-timestamp rewrites of an existing leaf in the stream
 	selfNames bool // the device fills prefix.target with names of its own choosing
 	selfNamed int
 	allSentAt time.Time // when a session had handed its last response to the transport
@@ -405,6 +405,51 @@ func selfSigned(dir string) (tls.Certificate, string, string, error) {
 	return c, cf, kf, err
 }
 
+// listensOn reports whether process pid itself owns a listening TCP socket on
+// the port. A port obtained by binding :0 and closing can be taken by another
+// scenario's listener before the collector binds it; a successful dial then
+// reaches a stranger (the collector exits with "address already in use") and
+// everything observed afterwards would be about the stranger, not about the
+// collector under test. Ownership is decided from /proc: the inode of the
+// LISTEN entry for the port must be among the child's socket descriptors.
+func listensOn(pid, port int) bool {
+	inodes := map[string]bool{}
+	for _, f := range []string{"/proc/net/tcp", "/proc/net/tcp6"} {
+		b, err := os.ReadFile(f)
+		if err != nil {
+			continue
+		}
+		for _, l := range strings.Split(string(b), "\n")[1:] {
+			fs := strings.Fields(l)
+			if len(fs) < 10 || fs[3] != "0A" {
+				continue
+			}
+			i := strings.LastIndex(fs[1], ":")
+			if i < 0 {
+				continue
+			}
+			if p, err := strconv.ParseInt(fs[1][i+1:], 16, 32); err == nil && int(p) == port {
+				inodes[fs[9]] = true
+			}
+		}
+	}
+	if len(inodes) == 0 {
+		return false
+	}
+	ents, err := os.ReadDir(fmt.Sprintf("/proc/%d/fd", pid))
+	if err != nil {
+		return false
+	}
+	for _, e := range ents {
+		if t, err := os.Readlink(fmt.Sprintf("/proc/%d/fd/%s", pid, e.Name())); err == nil && strings.HasPrefix(t, "socket:[") {
+			if inodes[strings.TrimSuffix(strings.TrimPrefix(t, "socket:["), "]")] {
+				return true
+			}
+		}
+	}
+	return false
+}
+
 func freePort() int {
 	l, err := net.Listen("tcp", "127.0.0.1:0")
 	if err != nil {
@@ -488,19 +533,24 @@ func renderGroup(v interface{}) string {
 // ---------- scenario ----------
 
 type scenario struct {
-	dir       string
-	scripts   []*scriptT
-	servers   []*grpc.Server
-	addrs     []string
-	collector *exec.Cmd
-	collAddr  string
-	collLog   string
+	dir        string
+	scripts    []*scriptT
+	servers    []*grpc.Server
+	addrs      []string
+	collector  *exec.Cmd
+	collExited chan struct{} // closed when the collector child has been reaped
+	collAddr   string
+	collLog    string
 }
 
 func (sc *scenario) stop() {
 	if sc.collector != nil && sc.collector.Process != nil {
 		sc.collector.Process.Kill()
-		sc.collector.Wait()
+		if sc.collExited != nil {
+			<-sc.collExited
+		} else {
+			sc.collector.Wait()
+		}
 	}
 	for _, s := range sc.servers {
 		s.Stop()
@@ -608,18 +658,30 @@ func runScenario(r *vlib.Run, mode string, trial int, rng *rand.Rand) {
 		}
 		lf.Close()
 		sc.collector = cmd
+		exited := make(chan struct{})
+		sc.collExited = exited
+		go func() { cmd.Wait(); close(exited) }()
+	wait:
 		for i := 0; i < 400; i++ {
-			c, err := net.DialTimeout("tcp", sc.collAddr, 200*time.Millisecond)
-			if err == nil {
-				c.Close()
-				started = true
-				break
+			select {
+			case <-exited: // e.g. "failed to listen: address already in use": take another port
+				r.Count("collector_start_retries_port_taken", 1)
+				break wait
+			default:
+			}
+			if listensOn(cmd.Process.Pid, port) {
+				if c, err := net.DialTimeout("tcp", sc.collAddr, 200*time.Millisecond); err == nil {
+					c.Close()
+					started = true
+					break
+				}
 			}
 			time.Sleep(25 * time.Millisecond)
 		}
 		if !started {
 			cmd.Process.Kill()
-			cmd.Wait()
+			<-exited
+			sc.collector, sc.collExited = nil, nil
 		}
 	}
 	if !started {
@@ -1142,7 +1204,7 @@ func body(r *vlib.Run) {
 
 func main() {
 	vlib.Main(&vlib.Spec{
-		ID: "C01",
+		ID:   "C01",
 		Rule: "Each scenario builds nothing itself: the real gnmi_collector and gnmi_cli binaries are built from the working tree once per run. 1-3 scripted TLS gNMI targets stream 5-40 generated notifications each (plain / keyed (1-3 keys) / deprecated-encoding paths split between prefix and path, origins empty / openconfig / custom, every scalar arm and leaf-lists, multi-update notifications, exact / subtree / keyed deletes, a sync at a seeded position, then a nonce sentinel); the collector is configured with shared or distinct requests, half of the scenarios with periodic metadata/size refresh on. Observed: client-library CacheClient STREAM subscribers per target and for '*', and gnmi_cli ONCE in group and single display invoked three equivalent ways (flags, -proto, -proto_file). A scenario is distinct non-trivial when all views were compared with the model (hash of mode, trial, targets, final leaf count). Mode pathorigin puts the origin into update paths (input class of known finding D19).",
 		Assumptions: []string{
 			"the model (map from index path [target, origin-or-openconfig, elems and key values ordered by key name] to the Go scalar the generator chose before hand-encoding it) is the specification of a target's final state",
